@@ -394,3 +394,65 @@ func verifLemmaQRowColumnAgree(s *QSeq, pos, row int) (a, b alphabet.QLetter) {
 //@   loop 1 invariant s.Offset <= i && i <= s.Offset + len(s.Seq) && qwf0(s) && s.Seq == old(s.Seq) && s.Offset == old(s.Offset) && s.Alpha == old(s.Alpha)
 //@   loop 2 invariant 0 <= idx && idx <= len(n)
 //@ spec qwf0(s *QSeq) bool = s != nil && len(s.Seq) > 0
+
+// ---- a single row of a column-stored alignment (C05) ----
+// RevComp of a row mirrors and complements that row only; the other rows keep their letters.
+//@ spec rowOK(s *Seq, row int) bool = wf(s) && 0 <= row && row < len(s.Seq[0]) && row < len(s.SubAnnotations) && complementing(s.Alpha, s.SubAnnotations[row].Strand) && (forall c int :: 0 <= c && c < len(s.Seq) ==> arr(s.Seq[c]) != tabArr(s.Alpha))
+//@ func (Row).RevComp
+//@   property C05
+//@   requires r.Align != nil && rowOK(r.Align, r.Row)
+//@   ensures [row]    forall c int :: 0 <= c && c < len(r.Align.Seq) ==> r.Align.Seq[c][r.Row] == ctab(r.Align.Alpha, old(r.Align.Seq[len(r.Align.Seq)-1-c][r.Row]))
+//@   ensures [others] forall c int, k int :: 0 <= c && c < len(r.Align.Seq) && 0 <= k && k < len(r.Align.Seq[0]) && k != r.Row ==> r.Align.Seq[c][k] == old(r.Align.Seq[c][k])
+//@   ensures [strand] r.Align.SubAnnotations[r.Row].Strand == -old(r.Align.SubAnnotations[r.Row].Strand)
+//@   assigns r.Align.Seq[*][*], r.Align.SubAnnotations[*]
+//@   loop 1 assigns r.Align.Seq[*][*]
+//@   loop 1 invariant 0 <= i && j == len(rs)-1-i && i <= j+1 && rs == old(r.Align.Seq) && len(comp) == 256 && arr(comp) == tabArr(r.Align.Alpha)
+//@   loop 1 invariant forall b int :: 0 <= b && b < 256 ==> comp[b] == ctab(r.Align.Alpha, b)
+//@   loop 1 invariant forall c int :: 0 <= c && c < i ==> rs[c][r.Row] == ctab(r.Align.Alpha, old(r.Align.Seq[len(rs)-1-c][r.Row])) && rs[len(rs)-1-c][r.Row] == ctab(r.Align.Alpha, old(r.Align.Seq[c][r.Row]))
+//@   loop 1 invariant forall c int :: i <= c && c <= j ==> rs[c][r.Row] == old(r.Align.Seq[c][r.Row])
+//@   loop 1 invariant forall c int, k int :: 0 <= c && c < len(rs) && 0 <= k && k < len(rs[0]) && k != r.Row ==> rs[c][k] == old(r.Align.Seq[c][k])
+//@   loop 1 decreases j - i + 1
+
+//@ func (Row).Reverse
+//@   property C05
+//@   requires r.Align != nil && wf(r.Align) && 0 <= r.Row && r.Row < len(r.Align.Seq[0]) && r.Row < len(r.Align.SubAnnotations)
+//@   ensures [row]    forall c int :: 0 <= c && c < len(r.Align.Seq) ==> r.Align.Seq[c][r.Row] == old(r.Align.Seq[len(r.Align.Seq)-1-c][r.Row])
+//@   ensures [others] forall c int, k int :: 0 <= c && c < len(r.Align.Seq) && 0 <= k && k < len(r.Align.Seq[0]) && k != r.Row ==> r.Align.Seq[c][k] == old(r.Align.Seq[c][k])
+//@   ensures [strand] r.Align.SubAnnotations[r.Row].Strand == 0
+//@   assigns r.Align.Seq[*][*], r.Align.SubAnnotations[*]
+//@   loop 1 assigns r.Align.Seq[*][*]
+//@   loop 1 invariant 0 <= i && j == len(l)-1-i && i <= j+1 && l == old(r.Align.Seq)
+//@   loop 1 invariant forall c int :: 0 <= c && c < i ==> l[c][r.Row] == old(r.Align.Seq[len(l)-1-c][r.Row]) && l[len(l)-1-c][r.Row] == old(r.Align.Seq[c][r.Row])
+//@   loop 1 invariant forall c int :: i <= c && c <= j ==> l[c][r.Row] == old(r.Align.Seq[c][r.Row])
+//@   loop 1 invariant forall c int, k int :: 0 <= c && c < len(l) && 0 <= k && k < len(l[0]) && k != r.Row ==> l[c][k] == old(r.Align.Seq[c][k])
+//@   loop 1 decreases j - i + 1
+
+//@ spec qrowOK(s *QSeq, row int) bool = qwf(s) && 0 <= row && row < len(s.Seq[0]) && row < len(s.SubAnnotations) && complementing(s.Alpha, s.SubAnnotations[row].Strand) && (forall c int :: 0 <= c && c < len(s.Seq) ==> arr(s.Seq[c]) != tabArr(s.Alpha))
+//@ func (QRow).RevComp
+//@   property C05
+//@   requires r.Align != nil && qrowOK(r.Align, r.Row)
+//@   ensures [row]    forall c int :: 0 <= c && c < len(r.Align.Seq) ==> r.Align.Seq[c][r.Row].L == ctab(r.Align.Alpha, old(r.Align.Seq[len(r.Align.Seq)-1-c][r.Row]).L) && r.Align.Seq[c][r.Row].Q == old(r.Align.Seq[len(r.Align.Seq)-1-c][r.Row]).Q
+//@   ensures [others] forall c int, k int :: 0 <= c && c < len(r.Align.Seq) && 0 <= k && k < len(r.Align.Seq[0]) && k != r.Row ==> r.Align.Seq[c][k] == old(r.Align.Seq[c][k])
+//@   ensures [strand] r.Align.SubAnnotations[r.Row].Strand == -old(r.Align.SubAnnotations[r.Row].Strand)
+//@   assigns r.Align.Seq[*][*], r.Align.SubAnnotations[*]
+//@   loop 1 assigns r.Align.Seq[*][*]
+//@   loop 1 invariant 0 <= i && j == len(rs)-1-i && i <= j+1 && rs == old(r.Align.Seq) && len(comp) == 256 && arr(comp) == tabArr(r.Align.Alpha)
+//@   loop 1 invariant forall b int :: 0 <= b && b < 256 ==> comp[b] == ctab(r.Align.Alpha, b)
+//@   loop 1 invariant forall c int :: 0 <= c && c < i ==> rs[c][r.Row].L == ctab(r.Align.Alpha, old(r.Align.Seq[len(rs)-1-c][r.Row]).L) && rs[c][r.Row].Q == old(r.Align.Seq[len(rs)-1-c][r.Row]).Q && rs[len(rs)-1-c][r.Row].L == ctab(r.Align.Alpha, old(r.Align.Seq[c][r.Row]).L) && rs[len(rs)-1-c][r.Row].Q == old(r.Align.Seq[c][r.Row]).Q
+//@   loop 1 invariant forall c int :: i <= c && c <= j ==> rs[c][r.Row] == old(r.Align.Seq[c][r.Row])
+//@   loop 1 invariant forall c int, k int :: 0 <= c && c < len(rs) && 0 <= k && k < len(rs[0]) && k != r.Row ==> rs[c][k] == old(r.Align.Seq[c][k])
+//@   loop 1 decreases j - i + 1
+
+//@ func (QRow).Reverse
+//@   property C05
+//@   requires r.Align != nil && qwf(r.Align) && 0 <= r.Row && r.Row < len(r.Align.Seq[0]) && r.Row < len(r.Align.SubAnnotations)
+//@   ensures [row]    forall c int :: 0 <= c && c < len(r.Align.Seq) ==> r.Align.Seq[c][r.Row] == old(r.Align.Seq[len(r.Align.Seq)-1-c][r.Row])
+//@   ensures [others] forall c int, k int :: 0 <= c && c < len(r.Align.Seq) && 0 <= k && k < len(r.Align.Seq[0]) && k != r.Row ==> r.Align.Seq[c][k] == old(r.Align.Seq[c][k])
+//@   ensures [strand] r.Align.SubAnnotations[r.Row].Strand == 0
+//@   assigns r.Align.Seq[*][*], r.Align.SubAnnotations[*]
+//@   loop 1 assigns r.Align.Seq[*][*]
+//@   loop 1 invariant 0 <= i && j == len(l)-1-i && i <= j+1 && l == old(r.Align.Seq)
+//@   loop 1 invariant forall c int :: 0 <= c && c < i ==> l[c][r.Row] == old(r.Align.Seq[len(l)-1-c][r.Row]) && l[len(l)-1-c][r.Row] == old(r.Align.Seq[c][r.Row])
+//@   loop 1 invariant forall c int :: i <= c && c <= j ==> l[c][r.Row] == old(r.Align.Seq[c][r.Row])
+//@   loop 1 invariant forall c int, k int :: 0 <= c && c < len(l) && 0 <= k && k < len(l[0]) && k != r.Row ==> l[c][k] == old(r.Align.Seq[c][k])
+//@   loop 1 decreases j - i + 1
